@@ -216,10 +216,34 @@ def run_c07(prop, tier, seed, workdir):
     return res
 
 
+def run_c06(prop, tier, seed, workdir):
+    """C06: the algorithm layer of mem_prim_move (MemMove.tla: direction choice, alignment head, word copies, tail) is
+    model-checked first; then the contract layer is bound to the code as for the other arena properties."""
+    n, ml = (16, 10) if tier == "quick" else (24, 18)
+    st = tr = 0
+    for choice, must_hold in (("code", True), ("fencepost", False)):
+        cfg = os.path.join(workdir, "memmove_%s.cfg" % choice)
+        tlc.write_cfg(cfg, constants=dict(N=n, W=4, MaxLen=ml, Choice=choice), invariants=["MoveCorrect", "NoEmptyDoLoop", "InBounds"])
+        r = tlc.model_check("MemMove", cfg, workdir, workers=16)
+        if must_hold and (r["violated"] or not r["ok"]):
+            raise tlc.TLCError("MemMove.tla: the specified algorithm violates %s\n%s" % (r["violated"], r["out"][-1500:]))
+        if not must_hold and not r["violated"]:
+            raise tlc.TLCError("self-test: MemMove.tla does not reject the fencepost direction choice")
+        if must_hold:
+            st, tr = r["distinct"], r["states"]
+    res = run_arena_and_os(prop, tier, seed, workdir)
+    res.coverage["states"] += st
+    res.coverage["transitions"] += tr
+    res.coverage["algorithm_layer_states"] = st
+    res.coverage["rule"] += ("; algorithm layer: MemMove.tla runs mem_prim_move (direction by address order, alignment head loop, word copies, tail loop; word size 4) for every "
+                             "placement in %d addresses and every length <= %d: MoveCorrect (memmove semantics), NoEmptyDoLoop, InBounds; the fencepost direction choice is shown to violate MoveCorrect" % (n, ml))
+    return res
+
+
 ENGINES["C07"] = run_c07
 ENGINES["C10"] = run_arena
-for _p in ("C02", "C06"):
-    ENGINES[_p] = run_arena_and_os
+ENGINES["C02"] = run_arena_and_os
+ENGINES["C06"] = run_c06
 for _p in ("C01", "C03", "C04", "C05", "C08"):
     ENGINES[_p] = run_arena_and_printf
 
